@@ -1,10 +1,13 @@
 package io
 
 import (
+	"errors"
 	zerr "github.com/DemoHn/Zn/pkg/error"
 	"io"
 	"unicode/utf8"
 )
+
+var errInvalidUTF8 = errors.New("内容并非有效的 UTF-8 编码")
 
 // InputStream defines an abstract reader that read bytes from external sources
 // (e.g. files, strings, etc.) and transform to unicode chars
@@ -26,8 +29,13 @@ func readRune(r io.Reader, remains []byte, b int) ([]rune, []byte, error) {
 	buf := append(remains, p[:t]...)
 	for len(buf) > 0 {
 		ru, size := utf8.DecodeRune(buf)
-		if ru == utf8.RuneError {
-			return rs, buf, nil
+		// NOTE: a well-formed U+FFFD (size = 3) is a legal character
+		if ru == utf8.RuneError && size <= 1 {
+			// an incomplete sequence at the end of this block will be completed by next read
+			if !utf8.FullRune(buf) && err != io.EOF {
+				return rs, buf, nil
+			}
+			return rs, buf, zerr.ReadFileError(errInvalidUTF8, " <buffer> ")
 		}
 
 		rs = append(rs, ru)
